@@ -42,6 +42,7 @@ type MemConn struct {
 	step       *int // current step number of the harness
 	// WriteErr, when set, makes Write fail (simulates a broken pipe) after recording nothing.
 	WriteErr error
+	failNext int // the next failNext Write calls fail (transient fault), recording nothing
 }
 
 func newMemConn(remote string, step *int) *MemConn {
@@ -79,6 +80,10 @@ func (c *MemConn) Write(p []byte) (int, error) {
 	}
 	if c.WriteErr != nil {
 		return 0, c.WriteErr
+	}
+	if c.failNext > 0 {
+		c.failNext--
+		return 0, errors.New("transient write fault")
 	}
 	c.out = append(c.out, Chunk{Step: *c.step, Data: append([]byte{}, p...)})
 	return len(p), nil
@@ -191,4 +196,19 @@ func (c *MemConn) Deadlines() ([]time.Time, []time.Time) {
 	c.mu.Lock()
 	defer c.mu.Unlock()
 	return append([]time.Time{}, c.deadlines...), append([]time.Time{}, c.deadlineAt...)
+}
+
+// FailNext makes the next n Write calls on the connection fail without recording anything
+// (a transient fault: the connection is not closed by it).
+func (c *MemConn) FailNext(n int) {
+	c.mu.Lock()
+	c.failNext = n
+	c.mu.Unlock()
+}
+
+// FailPending reports how many armed write faults have not been consumed yet.
+func (c *MemConn) FailPending() int {
+	c.mu.Lock()
+	defer c.mu.Unlock()
+	return c.failNext
 }
